@@ -4,7 +4,8 @@ CONSTANTS
     Depth = 0
     Kinds = {"unary", "prod", "exch"}
     MaxN = 3
-    Limits = {1, 2, 3}
+    MaxZeros = 99
+    Limits = {0, 1, 2, 3}
     InitErrs = {FALSE, TRUE}
     Inputs = {"ok", "drift"}
     Decls = {TRUE, FALSE}
